@@ -305,6 +305,13 @@ func BuildCte(query *Query, expr *sqlparser.With) error {
 	if expr == nil {
 		return nil
 	}
+	// the CTEs are entered into the document the query reads from; that document is the
+	// caller's own map unless Wrapped() is used, so they go into a copy of its top level
+	data := make(Map, len(query.data)+len(expr.CTEs))
+	for key, value := range query.data {
+		data[key] = value
+	}
+	query.data = data
 	for _, cte := range expr.CTEs {
 		copy := *cte
 		query.data[copy.ID.String()] = CteEvaluation(func() (any, error) {
